@@ -9,38 +9,12 @@
 (* The numeric verdicts (decided, failed) are harness observations         *)
 (* (relcheck.c); this module decides coverage and the contract on them.    *)
 (***************************************************************************)
-EXTENDS NetParams, TraceCommon, FiniteSets, SequencesExt
+EXTENDS NetParamsCases, TraceCommon, FiniteSets
 
-MaxN == 6
-Z0Classes == {"eq", "uneq", "cplx"}
-Aliasing == {0, 1}
-DPairs(S, T) == {p \in S \X T : p[1] # p[2]}
-DTriples(S, T, U) ==
-    {p \in S \X T \X U : p[1] # p[2] /\ p[1] # p[3] /\ p[2] # p[3]}
-Key(kind, a, b, c, n, al, z) == <<kind, a, b, c, n, al, z>>
+CaseKeys == CaseSet
 
-(* the same enumeration as NetParamsTable!Cases, as a set of keys *)
-CaseKeys ==
-      {Key("conv2", p[1], "-", p[2], 2, al, z) :
-         p \in DPairs(MatrixTypes, MatrixTypes), al \in Aliasing, z \in Z0Classes}
- \cup {Key("convn", p[1], "-", p[2], n, al, z) :
-         p \in DPairs(NPortTypes, NPortTypes), n \in 1..MaxN,
-         al \in Aliasing, z \in Z0Classes}
- \cup {Key("zin2", a, "-", "ZIN", 2, al, z) :
-         a \in MatrixTypes, al \in Aliasing, z \in Z0Classes}
- \cup {Key("zinn", a, "-", "ZIN", n, al, z) :
-         a \in NPortTypes, n \in 1..MaxN, al \in Aliasing, z \in Z0Classes}
- \cup {Key("round2", p[1], p[2], p[1], 2, 0, z) :
-         p \in DPairs(MatrixTypes, MatrixTypes), z \in Z0Classes}
- \cup {Key("roundn", p[1], p[2], p[1], n, 0, z) :
-         p \in DPairs(NPortTypes, NPortTypes), n \in 1..MaxN, z \in Z0Classes}
- \cup {Key("chain2", p[1], p[2], p[3], 2, 0, z) :
-         p \in DTriples(MatrixTypes, MatrixTypes, MatrixTypes \cup {"ZIN"}),
-         z \in Z0Classes}
- \cup {Key("nvs2", p[1], "-", p[2], 2, 0, z) :
-         p \in DPairs(NPortTypes, NPortTypes \cup {"ZIN"}), z \in Z0Classes}
-
-KeyOf(ev) == Key(ev.kind, ev.from, ev.via, ev.to, ev.n, ev.alias, ev.z0)
+KeyOf(ev) == [kind |-> ev.kind, from |-> ev.from, via |-> ev.via, to |-> ev.to,
+              n |-> ev.n, alias |-> ev.alias, z0 |-> ev.z0, net |-> ev.net]
 
 VARIABLES l, seen
 tvars == <<l, seen>>
